@@ -33,7 +33,7 @@ RULE = (
     "table with at least one paired row and one unpaired row; distinct = (frame id, task, divisions, statuses present, #scenes, matched-FP present?)"
 )
 ASSUMPTIONS = ["ground-truth uuids are unique inside a frame", "yaw-only rotations"]
-DECIDING = ["analyzer.tables_judged", "analyzer.rows_checked", "analyzer.paired_rows", "C19.status.TP", "C19.status.FP", "C19.status.TN", "C19.status.FN", "C19.matched_fp_rows", "get_object_status.judged", "C19.error_arrays_checked", "C19.summaries_checked", "C19.selections_checked", "C19.map_frame_tables", "C19.analyses_with_selections", "C19.ego2map_checked", "C19.pickle_roundtrips", "analyzer.clears", "C19.area_rows_checked"]
+DECIDING = ["analyzer.tables_judged", "analyzer.rows_checked", "analyzer.paired_rows", "C19.status.TP", "C19.status.FP", "C19.status.TN", "C19.status.FN", "C19.matched_fp_rows", "get_object_status.judged", "C19.error_arrays_checked", "C19.summaries_checked", "C19.selections_checked", "C19.map_frame_tables", "C19.analyses_with_selections", "C19.ego2map_checked", "C19.pickle_roundtrips", "analyzer.clears", "C19.area_rows_checked", "C19.combined_selections_checked"]
 JOBS = {"quick": 4, "thorough": 14}
 
 
@@ -265,6 +265,24 @@ def judge_table(ctx: Ctx, an: Any, scenes: List[List[Any]]) -> None:
     for l in labels:
         e_tp = sum(1 for r in rows if r["status"] == "TP" and O.lab_of(r["est"]) == l)
         ctx.check(an.get_num_tp(label=l) == e_tp, "C19/label_selection_inconsistent_with_table", dict(info, label=l, got=an.get_num_tp(label=l), expected=e_tp), tap)
+    # several selections at once select the rows satisfying ALL of them
+    for sc in sorted({r["scene"] for r in rows}):
+        for l in labels:
+            e_tp = sum(1 for r in rows if r["status"] == "TP" and r["scene"] == sc and O.lab_of(r["est"]) == l)
+            e_fp = sum(1 for r in rows if r["status"] == "FP" and r["scene"] == sc and O.lab_of(r["est"]) == l)
+            got = (an.get_num_tp(scene=sc, label=l), an.get_num_fp(label=l, scene=sc))
+            ctx.count("C19.combined_selections_checked")
+            ctx.check(got == (e_tp, e_fp), "C19/combined_selection_inconsistent_with_table", dict(info, scene=sc, label=l, got=got, expected=(e_tp, e_fp)), tap)
+            # get(): an item (row pair) is selected when its ground truth or its estimate satisfies each selection
+            e_items = sum(1 for r in rows if r["scene"] == sc and any(o is not None and O.lab_of(o) == l for o in (r["gt"], r["est"])))
+            got_items = (len(an.get(scene=sc, label=l)) // 2, len(an.get(label=l, scene=sc)) // 2)
+            ctx.check(got_items == (e_items, e_items), "C19/combined_selection_inconsistent_with_table", dict(info, fn="get", scene=sc, label=l, got=got_items, expected=e_items), tap)
+        for fnum in sorted({r["frame"] for r in rows if r["scene"] == sc})[:3]:
+            e_est = sum(1 for r in rows if r["est"] is not None and r["scene"] == sc and r["frame"] == fnum)
+            e_fn = sum(1 for r in rows if r["status"] == "FN" and r["scene"] == sc and r["frame"] == fnum)
+            got = (an.get_num_estimation(scene=sc, frame=fnum), an.get_num_fn(frame=fnum, scene=sc))
+            ctx.count("C19.combined_selections_checked")
+            ctx.check(got == (e_est, e_fn), "C19/combined_selection_inconsistent_with_table", dict(info, scene=sc, frame=fnum, got=got, expected=(e_est, e_fn)), tap)
     areas = [a for a in set(df["area"].tolist()) if a is not None and not (isinstance(a, float) and math.isnan(a))]
     n_area_est = sum(an.get_num_estimation(area=a) for a in areas)
     n_none = int(sum(1 for v in est_rows[~est_rows["status"].isnull()]["area"].tolist() if v is None or (isinstance(v, float) and math.isnan(v))))
